@@ -94,6 +94,10 @@ def handle (line : String) : String :=
         -- thread between the events: a render does not see other renders, so the model ignores them
         | "blockx" => runBlock (World.start .block vs) evs
         | "streamx" => runStream (World.start .stream vs) evs
+        -- likewise with a render of the other asynchronous mode (of an unrelated view) that was started before, is
+        -- suspended, and finishes between the events
+        | "blockp" => runBlock (World.start .block vs) evs
+        | "streamp" => runStream (World.start .stream vs) evs
         -- a render after a cancelled one is a fresh render: every task (in order of first occurrence in
         -- the view), then every resource, completes
         | "blockdrop" => runBlock (World.start .block vs) (allEvents vs)
